@@ -456,6 +456,7 @@ def run(chk):
     _reset_rule(chk, prog, tu)
     _emits_rule(chk, prog, tu)
     _accumfast_rule(chk, fn)
+    _endincl_rule(chk, fn)
     _grammarcache_rule(chk, prog, tu)
     _endpos_rule(chk, prog, tu)
     _capscope_rule(chk, fn)
@@ -501,6 +502,21 @@ def _accumfast_rule(chk, fn):
         inner = [c for c in val.walk() if c.k == "call" and c.callee in ("janet_string", "janet_stringv")]
         same = bool(inner) and [a.text().replace(" ", "") for a in inner[0].args] == [a.text().replace(" ", "") for a in fast[0].args[1:]]
         cases = enclosing_cases(x) or ["?"]
+        # the short cut records nothing on the capture stack, which is what a later back-reference searches (an untagged
+        # (backmatch) looks for tag 0, and pushcap records every capture once the grammar has back-references): every
+        # way of taking it must include `no back-reference anywhere in the grammar`
+        from jv.flow import _atoms
+        loose = None
+        for alt in _atoms(cond, True):
+            if not any(any(y.k == "mem" and y.field == "has_backref" for y in a.walk()) and t is False for (a, t) in alt):
+                loose = alt
+        if loose is not None:
+            n += 1
+            chk.instance(rule)
+            chk.violation(rule, "peg.c", "peg_rule", "%s:backref" % cases[0], x.loc,
+                          "in %s the accumulate short cut (no entry on the capture stack) is also taken when %s, although the grammar has "
+                          "back-references: a capture made that way is invisible to a later (backmatch), which then fails or matches an "
+                          "older capture" % (cases[0], " && ".join(("" if t else "!") + "(" + a.text()[:30] + ")" for a, t in loose)))
         if same:
             chk.ok(rule, "%s: the short cut appends exactly the string the general path captures" % cases[0])
         else:
@@ -735,3 +751,33 @@ def _tagbyte_rule(chk, prog, tu):
                               "`%s` can be 256 or more when it is handed out: at match time the tag is stored in one byte, 256 becomes 0, "
                               "and (backref t) / (backmatch t) on that tag silently never match" % v)
     chk.floor(rule, 1, len(rets))
+
+
+def _endincl_rule(chk, fn):
+    """to, thru, til and split look for a sub-pattern at successive positions.  A pattern can match the empty string,
+    also at the very end of the text (-1, (+ "\\n" -1)), so the search has to try the end position itself: the loop
+    runs while position <= end.  With `<` a separator that first matches at the end is never found."""
+    rule = "C12-ENDINCL"
+    chk.rule(rule, "every loop of peg_rule that tries a sub-pattern at successive positions up to the end of the text includes the end position (<=)")
+    ends = set(x.name for x in fn.nodes if x.k == "vardecl" and x.kids and any(y.k == "mem" and y.field == "text_end" for y in x.kids[0].walk()))
+    n = 0
+    for x in fn.nodes:
+        if x.k != "while":
+            continue
+        cond = x.kids[0]
+        cmpn = [y for y in cond.walk() if y.k == "bin" and y.op in ("<", "<=") and (
+            any(z.k == "mem" and z.field == "text_end" for z in y.kids[1].walk()) or
+            (is_ref(strip_casts(y.kids[1])) and strip_casts(y.kids[1]).name in ends))]
+        if not cmpn or not any(c.k == "call" and c.callee == "peg_rule" for c in x.kids[1].walk()):
+            continue
+        n += 1
+        chk.instance(rule)
+        cases = enclosing_cases(x) or ["?"]
+        if cmpn[0].op == "<=":
+            chk.ok(rule, "%s: `%s`" % (cases[0], cond.text()[:40]))
+        else:
+            chk.violation(rule, "peg.c", "peg_rule", "%s:%s" % (cases[0], cmpn[0].text().replace(" ", "")[:30]), x.loc,
+                          "the search loop of %s runs while `%s`: the end of the text is never tried, so a sub-pattern whose first match is "
+                          "the empty string at the end (-1, the last line without a newline) is not found, unlike in its sibling rules" % (
+                              cases[0], cmpn[0].text()))
+    chk.floor(rule, 3, n)
